@@ -6,6 +6,7 @@ import (
 	"fmt"
 	"os"
 	"path/filepath"
+	"regexp"
 	"time"
 
 	"verif/mc/engine"
@@ -46,7 +47,24 @@ func setupTree(env *engine.Env) error {
 		return err
 	}
 	env.Data["tree"] = t
+	model.SystemDirs = systemDirs(env.Repo)
 	return nil
+}
+
+var fsPathRe = regexp.MustCompile(`(?m)^\s*"(/[^"]*)",\s*$`)
+
+// systemDirs reads the directories the tree under test attributes to the distribution's filesystem and logrotate
+// packages (the string lists in files/fs.go). What the code does with the list is judged; the list itself is data.
+func systemDirs(repo string) map[string]bool {
+	out := map[string]bool{}
+	b, err := os.ReadFile(filepath.Join(repo, "files", "fs.go"))
+	if err != nil {
+		return out
+	}
+	for _, m := range fsPathRe.FindAllStringSubmatch(string(b), -1) {
+		out[m[1]] = true
+	}
+	return out
 }
 
 // toContents converts model entries to the implementation's input type, with
